@@ -46,12 +46,14 @@ def run(ctx):
     rule_svckey(ctx, F)
     rule_sym(ctx, F)
     rule_escread(ctx, F)
+    rule_bititer(ctx, F)
     # written text reads back only if the reader's tokeniser counts groups the way the multi-line writer nests them and
     # the Base32 / Base64 readers accept every tail the writers produce (shared with C07 and C18)
     import c07
     import c18
     c07.rule_cat(ctx, F)
     c18.rule_tail(ctx, F)
+    c18.rule_tab(ctx, F)    # binary fields are written and read through the Base16/32/64 alphabets
     c03.rule_esc(ctx, F)    # what Label's Display leaves unescaped against the reader (shared with C03)
 
 
@@ -898,3 +900,64 @@ def rule_escread(ctx, F):
                "Symbol::%s accepts a simple escape for %s and refuses it for %s (expected: 0x20..=0x7E without the digits): text "
                "that the writers produce (a blank is written `\\ `) is refused, or the two readers disagree about the same text"
                % (fn, _fmt_set(got - want) or "nothing extra", _fmt_set(want - got) or "nothing"), b.where(site))
+
+
+# ---------------------------------------------------------------------------
+# the type list of NSEC / NSEC3 is written from an iterator that looks at every bit
+# ---------------------------------------------------------------------------
+
+def rule_bititer(ctx, F):
+    """RtypeBitmapIter::advance moves a (window, octet, bit) cursor to the next set bit.  Every position the
+    cursor takes has to be *examined*: no way round the loop from one increment of the bit index to the next
+    goes past the test of the bit the cursor then points at (whatever else happens in between -- octet
+    wrap, window switch).  `new` is the sibling for the very first position: it advances only after it has
+    looked at bit 0 of octet 0."""
+    from rulelib import on_every_cycle
+    R = "C06.bititer"
+    ctx.floor(R, 2)
+    b = F.one_body(r"^rdata::dnssec::RtypeBitmapIter::<'a>::advance$")
+    if not ctx.anchor(R, "RtypeBitmapIter::advance", b):
+        return
+
+    def field_of(pl):
+        for pr in pl[1:]:
+            if isinstance(pr, list) and pr[0] == ".":
+                return pr[2] if pr[2] is not None else pr[1]
+        return None
+    incs, tests = [], []
+    for bi in sorted(b.reachable_blocks()):
+        if b.blocks[bi].get("c"):
+            continue
+        for st in b.blocks[bi]["s"]:
+            if st[0] != "=":
+                continue
+            if field_of(st[1]) == "bit" and st[1][0] == 1:
+                tm = deep_strip(b.term_of_rvalue(st[2]))
+                if tm[0] == "bin" and tm[1].startswith("Add"):
+                    incs.append(bi)
+            if st[2][0] == "bin" and st[2][1] == "BitAnd":
+                tm = deep_strip(b.term_of_rvalue(st[2]))
+                if any(s[0] == "bin" and s[1] in ("Shr", "ShrUnchecked") and const_value(deep_strip(s[2])) == 0x80 for s in walk(tm)):
+                    tests.append(bi)
+    if not ctx.anchor(R, "bit increment and bit test in RtypeBitmapIter::advance", len(incs) == 1 and len(tests) == 1, b.where()):
+        return
+    ctx.ob(R, b, "every position the cursor reaches is tested before the cursor moves on", on_every_cycle(b, incs[0], tests[0]),
+           "RtypeBitmapIter::advance can go from one increment of the bit index to the next without testing the bit in "
+           "between (a way round the loop that skips `data[octet] & (0x80 >> bit)`): a set bit at that position -- e.g. the "
+           "first bit of a later window, types 256, 512, ... -- is never reported, so NSEC / NSEC3 type lists are written "
+           "without it", b.where(incs[0]))
+    nb = F.one_body(r"^rdata::dnssec::RtypeBitmapIter::<'a>::new$")
+    if not ctx.anchor(R, "RtypeBitmapIter::new", nb):
+        return
+    adv = [bb for bb, _ in nb.calls_matching(r"RtypeBitmapIter::<'a>::advance$|RtypeBitmapIter::<.*>::advance$")]
+    ok = bool(adv)
+    for bb in adv:
+        tested = False
+        for tm, v in bool_facts(nb, bb, F):
+            s = deep_strip(tm)
+            if any(x[0] == "bin" and x[1] == "BitAnd" and const_value(deep_strip(x[3])) == 0x80 for x in walk(s)):
+                tested = True
+        ok = ok and tested
+    ctx.ob(R, nb, "the first position is tested before the first advance", ok,
+           "RtypeBitmapIter::new advances without having looked at bit 0 of the first octet (type 0 of the first window)",
+           nb.where(adv[0]) if adv else nb.where())
